@@ -12,6 +12,9 @@
 //!   F <name> <shape><flags> <threads|-> <uses|-> <calls|-> <statics|->
 //!         shape : h `void f()`  c compute  v vertex  p pixel  r pixel reading a per-primitive attribute  t task  m mesh
 //!                 n mesh with payload  q mesh with per-primitive output and control flow around the output writes
+//!                 u mesh whose per-primitive output is a plain array with a semantic of its own  f pixel with system-value
+//!                 inputs the previous stage does not write  g compute with every thread-id input  w vertex with an
+//!                 instance id  z (always with flag T) `template<typename T> T f(T tparam) { return tparam; }`
 //!         flags : d declaration only, T function template, N inside `namespace ns1`, M method of `struct S_<name>`,
 //!                 D only under `#if WIDE_ON`, E only under `#if !WIDE_ON`, R rich body (method calls on the resources,
 //!                 locals, arithmetic)
@@ -19,6 +22,8 @@
 //!   P <name> <flags|-> <prop> <prop> ...     pipeline block (flags N D E as above)
 //!         prop  : Name=val ; val : i:ident  q:qualified::ident  s:String  n:123  k:5 (constant expression)  m:1 (= -1)
 //!                 f:1.5  b:1|b:0  x:0 (no value at all: a syntax error)  {Sub=val,Sub=val}
+//!                 z:name (`sizeof(name<uint>(1u))` = 4; instantiates the function template `name`)
+//!                 v:0 (`lds_payload.start_location`: well typed, not a constant expression)
 //! rendering : every property on a line of its own, so that a diagnostic's line identifies the property;
 //!             `path` of a property = its number in a depth-first walk of the block (1-based; 0 = the header line).
 #![allow(dead_code)]
@@ -34,6 +39,11 @@ pub enum Val {
     Neg(u64),
     Float(String),
     Bool(bool),
+    /// `sizeof(<name><uint>(1u))`: a constant expression with the value 4 whose type check instantiates the function
+    /// template `<name>` (an item `F <name> zT`); encoded `z:<name>`
+    SizeofInst(String),
+    /// `lds_payload.start_location`: a well-typed expression that is not a constant expression; encoded `v:0`
+    NonConst,
     /// nothing between `=` and `;`: the parser rejects the file
     Garbage,
     Agg(Vec<Prop>),
@@ -64,6 +74,9 @@ pub struct WRes {
 pub struct Thr {
     pub v: u32,
     pub konst: bool,
+    /// 0 = fine; else an argument the constant evaluator can not turn into a u32: 1 `-1`, 2 `4294967296`, 3 `1.5`,
+    /// 4 a member of a groupshared variable (not a constant expression); encoded `x<k>`
+    pub bad: u8,
 }
 
 #[derive(Clone, Debug, PartialEq)]
@@ -138,6 +151,8 @@ fn show_val(v: &Val) -> String {
         Val::Konst(n) => format!("k:{}", n),
         Val::Neg(n) => format!("m:{}", n),
         Val::Float(s) => format!("f:{}", s),
+        Val::SizeofInst(s) => format!("z:{}", s),
+        Val::NonConst => "v:0".to_string(),
         Val::Bool(b) => format!("b:{}", if *b { 1 } else { 0 }),
         Val::Garbage => "x:0".to_string(),
         Val::Agg(ps) => format!("{{{}}}", ps.iter().map(show_prop).collect::<Vec<_>>().join(",")),
@@ -189,7 +204,11 @@ impl WProgram {
                 WItem::Func(f) => {
                     let th = match &f.threads {
                         None => "-".to_string(),
-                        Some(t) => t.iter().map(|x| format!("{}{}", if x.konst { "c" } else { "" }, x.v)).collect::<Vec<_>>().join(","),
+                        Some(t) => t
+                            .iter()
+                            .map(|x| if x.bad != 0 { format!("x{}", x.bad) } else { format!("{}{}", if x.konst { "c" } else { "" }, x.v) })
+                            .collect::<Vec<_>>()
+                            .join(","),
                     };
                     let st: Vec<String> = f.statics.iter().map(|k| k.to_string()).collect();
                     format!("F {} {}{} {} {} {} {}", f.name, f.shape, f.flags, th, dash(&f.uses), dash(&f.calls), dash(&st))
@@ -241,7 +260,7 @@ impl WProgram {
                 Some("F") if f.len() == 7 => {
                     let mut ch = f[2].chars();
                     let shape = ch.next()?;
-                    if !"hcvprtmnq".contains(shape) {
+                    if !"hcvprtmnqufgwz".contains(shape) {
                         return None;
                     }
                     let flags: String = ch.collect();
@@ -252,13 +271,17 @@ impl WProgram {
                         if v.len() != 3 {
                             return None;
                         }
-                        let mut t = [Thr { v: 1, konst: false }; 3];
+                        let mut t = [Thr { v: 1, konst: false, bad: 0 }; 3];
                         for (i, x) in v.iter().enumerate() {
+                            if let Some(b) = x.strip_prefix('x') {
+                                t[i] = Thr { v: 1, konst: false, bad: b.parse().ok()? };
+                                continue;
+                            }
                             let (k, n) = match x.strip_prefix('c') {
                                 Some(n) => (true, n),
                                 None => (false, *x),
                             };
-                            t[i] = Thr { v: n.parse().ok()?, konst: k };
+                            t[i] = Thr { v: n.parse().ok()?, konst: k, bad: 0 };
                         }
                         Some(t)
                     };
@@ -382,6 +405,8 @@ fn parse_val(s: &str) -> Option<Val> {
         "k" => Val::Konst(v.parse().ok()?),
         "m" => Val::Neg(v.parse().ok()?),
         "f" => Val::Float(v.to_string()),
+        "z" => Val::SizeofInst(v.to_string()),
+        "v" => Val::NonConst,
         "b" => Val::Bool(v == "1"),
         "x" => Val::Garbage,
         _ => return None,
@@ -423,6 +448,8 @@ fn render_scalar(v: &Val) -> String {
         }
         Val::Neg(n) => format!("-{}", n),
         Val::Float(s) => s.clone(),
+        Val::SizeofInst(s) => format!("sizeof({}<uint>(1u))", s),
+        Val::NonConst => "lds_payload.start_location".to_string(),
         Val::Bool(b) => (if *b { "true" } else { "false" }).to_string(),
         Val::Garbage => String::new(),
         Val::Agg(_) => unreachable!(),
@@ -548,7 +575,15 @@ fn render_func(prog: &WProgram, f: &WFunc) -> String {
     let th = match &f.threads {
         Some(t) => {
             let d: Vec<String> =
-                t.iter().map(|x| if x.konst { render_scalar(&Val::Konst(x.v as u64)) } else { x.v.to_string() }).collect();
+                t.iter()
+                    .map(|x| match x.bad {
+                        0 => if x.konst { render_scalar(&Val::Konst(x.v as u64)) } else { x.v.to_string() },
+                        1 => "-1".to_string(),
+                        2 => "4294967296".to_string(),
+                        3 => "1.5".to_string(),
+                        _ => "lds_payload.start_location".to_string(),
+                    })
+                    .collect();
             format!("[numthreads({}, {}, {})]\n", d[0], d[1], d[2])
         }
         None => String::new(),
@@ -562,7 +597,27 @@ fn render_func(prog: &WProgram, f: &WFunc) -> String {
                 (format!("void {}()", n), String::new())
             }
         }
+        'z' => (format!("template<typename T> T {}(T tparam)", n), "    return tparam;\n".to_string()),
         'c' => (format!("void {}(uint3 dtid : SV_DispatchThreadID)", n), String::new()),
+        'g' => (
+            format!("void {}(uint3 dtid : SV_DispatchThreadID, uint3 gid : SV_GroupID, uint3 gtid : SV_GroupThreadID, uint gindex : SV_GroupIndex)", n),
+            String::new(),
+        ),
+        'w' => (
+            format!("void {}(uint vid : SV_VertexID, uint iid : SV_InstanceID, out float4 o_pos : SV_Position)", n),
+            "    o_pos = float4(vid, iid, 0, 1);\n".to_string(),
+        ),
+        'f' => (
+            format!("float4 {}(float4 i_pos : SV_Position, bool i_front : SV_IsFrontFace, uint i_prim : SV_PrimitiveID) : SV_Target0", n),
+            "    return float4(i_prim, i_front ? 1 : 0, 0, 0);\n".to_string(),
+        ),
+        'u' => (
+            format!(
+                "[outputtopology(\"triangle\")]\nvoid {}(\n    uint3 dtid : SV_DispatchThreadID,\n    out vertices MeshVertex o_vertices[64],\n    out primitives uint o_material[64] : MATERIAL,\n    out indices uint3 o_triangles[64]\n)",
+                n
+            ),
+            "    SetMeshOutputCounts(64, 64);\n    MeshVertex vertex;\n    vertex.position = float4(0, 0, 0, 1);\n    o_vertices[dtid.x] = vertex;\n    o_material[dtid.x] = dtid.x % 8;\n    o_triangles[dtid.x] = uint3(0, 1, 2);\n".to_string(),
+        ),
         'v' => (
             format!("void {}(uint vid : SV_VertexID, out float4 o_pos : SV_Position)", n),
             "    o_pos = float4(0, 0, 0, 1);\n".to_string(),
@@ -1008,21 +1063,31 @@ pub fn gen_wide(rng: &mut Rng, o: &WideOpts) -> WProgram {
                 *rng.pick(&reuse)
             } else {
                 let k = entries.len();
-                let (prefix, shape) = match *st {
+                let (prefix, mut shape) = match *st {
                     "Compute" => ("cs", 'c'),
                     "Vertex" => ("vs", 'v'),
                     "Pixel" => ("ps", if kind == 5 && rng.chance(1, 3) { 'r' } else { 'p' }),
                     "Mesh" => if task_mesh { ("mst", 'n') } else if rng.chance(1, 3) { ("ms", 'q') } else { ("ms", 'm') },
                     _ => ("ts", 't'),
                 };
+                // more signature shapes (C17 only: no draw when overloads are switched off)
+                if !o.no_overloads && rng.chance(1, 4) {
+                    shape = match shape {
+                        'c' => 'g',
+                        'v' => 'w',
+                        'p' => 'f',
+                        'm' | 'q' => 'u',
+                        x => x,
+                    };
+                }
                 let (uses, calls, statics, d) = gen_body(rng, &nodes, &helper_nodes);
                 let threads = match *st {
                     "Compute" => {
                         let t = [1u32 << rng.below(4), 1 << rng.below(3), 1];
                         let konst = rng.chance(1, 4);
-                        Some([Thr { v: t[0], konst }, Thr { v: t[1], konst: false }, Thr { v: t[2], konst: konst && rng.chance(1, 2) }])
+                        Some([Thr { v: t[0], konst, bad: 0 }, Thr { v: t[1], konst: false, bad: 0 }, Thr { v: t[2], konst: konst && rng.chance(1, 2), bad: 0 }])
                     }
-                    "Mesh" | "Task" => Some([Thr { v: 64, konst: false }, Thr { v: 1, konst: false }, Thr { v: 1, konst: false }]),
+                    "Mesh" | "Task" => Some([Thr { v: 64, konst: false, bad: 0 }, Thr { v: 1, konst: false, bad: 0 }, Thr { v: 1, konst: false, bad: 0 }]),
                     _ => None,
                 };
                 let mut flags = String::new();
@@ -1074,7 +1139,7 @@ pub fn gen_wide(rng: &mut Rng, o: &WideOpts) -> WProgram {
     if rng.chance(1, 3) {
         let (uses, calls, statics, deps) = gen_body(rng, &nodes, &helper_nodes);
         let shape = *rng.pick(&['h', 'c', 'v', 'p']);
-        let threads = if shape == 'c' { Some([Thr { v: 4, konst: false }, Thr { v: 4, konst: false }, Thr { v: 1, konst: false }]) } else { None };
+        let threads = if shape == 'c' { Some([Thr { v: 4, konst: false, bad: 0 }, Thr { v: 4, konst: false, bad: 0 }, Thr { v: 1, konst: false, bad: 0 }]) } else { None };
         nodes.push(Node {
             item: WItem::Func(WFunc { name: "unused_fn".into(), shape, flags: String::new(), threads, uses, calls, statics }),
             deps,
@@ -1089,7 +1154,8 @@ pub fn gen_wide(rng: &mut Rng, o: &WideOpts) -> WProgram {
         let nedits = 1 + rng.below(2);
         for _ in 0..nedits {
             let pick_pipe = |rng: &mut Rng| -> Option<usize> { if pipe_nodes.is_empty() { None } else { Some(*rng.pick(&pipe_nodes)) } };
-            match rng.below(25) {
+            // the edits 25.. exist for C17 only (C18's programs, generated with `no_overloads`, draw exactly as before)
+            match rng.below(if o.no_overloads { 25 } else { 32 }) {
                 0 => {
                     // entry point defined after the pipeline that names it
                     if let Some(p) = pick_pipe(rng) {
@@ -1303,7 +1369,8 @@ pub fn gen_wide(rng: &mut Rng, o: &WideOpts) -> WProgram {
                     if let Some(p) = pick_pipe(rng) {
                         if let WItem::Pipe(pp) = &mut nodes[p].item {
                             pp.props.retain(|x| x.name != "DefaultBindGroup");
-                            let val = match rng.below(5) {
+                            let val = match rng.below(if o.no_overloads { 5 } else { 7 }) {
+                                5 | 6 => Val::NonConst,
                                 0 => Val::Neg(1),
                                 1 => Val::Float("1.0".into()),
                                 2 => Val::Num(4294967296),
@@ -1434,6 +1501,158 @@ pub fn gen_wide(rng: &mut Rng, o: &WideOpts) -> WProgram {
                             if f.shape == 'p' {
                                 f.shape = 'r';
                             }
+                        }
+                    }
+                }
+                25 | 26 => {
+                    // a `numthreads` argument that the constant evaluator can not turn into a u32: on an entry point
+                    // (the blocks that name it are rejected, without a location), now and then on a function no block
+                    // names (invisible to every block)
+                    let fine = |v: u32| Thr { v, konst: false, bad: 0 };
+                    let pool: Vec<usize> = if !entries.is_empty() && !rng.chance(1, 5) {
+                        entries.iter().map(|(_, n)| *n).collect()
+                    } else {
+                        helper_nodes.clone()
+                    };
+                    if !pool.is_empty() {
+                        let e = *rng.pick(&pool);
+                        let bad = 1 + rng.below(4) as u8;
+                        let at = rng.below(3) as usize;
+                        if let WItem::Func(f) = &mut nodes[e].item {
+                            let mut t = f.threads.unwrap_or([fine(8), fine(1), fine(1)]);
+                            t[at] = Thr { v: 1, konst: false, bad };
+                            f.threads = Some(t);
+                        }
+                    }
+                }
+                27 | 28 => {
+                    // prototype and definition carry different attributes (the definition's count): a prototype before the
+                    // definition (the blocks may stand between the two) and / or repeated after it, with another
+                    // `numthreads`, none, or one that does not evaluate; now and then the attribute on the prototype only
+                    let with_threads: Vec<usize> = entries.iter().map(|(_, n)| *n).filter(|n| matches!(&nodes[*n].item, WItem::Func(f) if f.threads.is_some())).collect();
+                    let pool: Vec<usize> = if with_threads.is_empty() { entries.iter().map(|(_, n)| *n).collect() } else { with_threads };
+                    if !pool.is_empty() {
+                        let e = *rng.pick(&pool);
+                        let fine = |v: u32| Thr { v, konst: false, bad: 0 };
+                        let mut proto = if let WItem::Func(f) = &nodes[e].item { f.clone() } else { unreachable!() };
+                        proto.flags.retain(|c| c != 'R');
+                        proto.flags.push('d');
+                        proto.threads = match rng.below(4) {
+                            0 => None,
+                            1 => Some([fine(2), fine(2), fine(2)]),
+                            2 => Some([fine(32), Thr { v: 1, konst: false, bad: 1 + rng.below(4) as u8 }, fine(1)]),
+                            _ => proto.threads,
+                        };
+                        if rng.chance(1, 4) {
+                            // the attribute stays on the prototype only
+                            if let WItem::Func(f) = &mut nodes[e].item {
+                                if proto.threads.is_none() {
+                                    proto.threads = f.threads;
+                                }
+                                f.threads = None;
+                            }
+                        }
+                        let before = rng.chance(1, 2);
+                        let after = !before || rng.chance(1, 3);
+                        if before {
+                            let n = nodes.len();
+                            let deps = nodes[e].deps.clone();
+                            nodes.push(Node { item: WItem::Func(proto.clone()), deps });
+                            nodes[e].deps.push(n);
+                            if rng.chance(1, 3) {
+                                for p in &pipe_nodes {
+                                    if let Some(i) = nodes[*p].deps.iter().position(|x| *x == e) {
+                                        nodes[*p].deps[i] = n;
+                                        inverted.push((*p, e));
+                                    }
+                                }
+                            }
+                        }
+                        if after {
+                            let n = nodes.len();
+                            let late = rng.chance(1, 2);
+                            let mut deps = vec![e];
+                            if late {
+                                deps.extend(pipe_nodes.iter().copied());
+                            }
+                            nodes.push(Node { item: WItem::Func(proto), deps });
+                            if !late {
+                                for p in &pipe_nodes {
+                                    if nodes[*p].deps.contains(&e) && rng.chance(1, 2) {
+                                        nodes[*p].deps.push(n);
+                                    }
+                                }
+                            }
+                        }
+                    }
+                }
+                29 => {
+                    // an entry value that is an identifier but not a trivial one: `ns1::f`, `::f`
+                    if let Some(p) = pick_pipe(rng) {
+                        if let WItem::Pipe(pp) = &mut nodes[p].item {
+                            let k = rng.below(4) as usize;
+                            let mut shaders: Vec<&mut Prop> = pp.props.iter_mut().filter(|x| x.name.ends_with("Shader")).collect();
+                            if !shaders.is_empty() {
+                                let i = k % shaders.len();
+                                if let Val::Ident(n) = shaders[i].val.clone() {
+                                    shaders[i].val = Val::Qual(if k < 2 { format!("ns1::{}", n) } else { format!("::{}", n) });
+                                }
+                            }
+                        }
+                    }
+                }
+                30 => {
+                    // one state property with a well-formed value of the right kind that no table knows / that is out of
+                    // range, on a graphics pipeline if there is one
+                    let graphics: Vec<usize> = pipe_nodes
+                        .iter()
+                        .copied()
+                        .filter(|p| matches!(&nodes[*p].item, WItem::Pipe(pp) if !pp.props.iter().any(|x| x.name == "ComputeShader")))
+                        .collect();
+                    let p = if graphics.is_empty() { pick_pipe(rng) } else { Some(*rng.pick(&graphics)) };
+                    if let Some(p) = p {
+                        let sub = |n: &str, v: Val| Val::Agg(vec![Prop { name: "BlendEnabled".into(), val: Val::Bool(true) }, Prop { name: n.to_string(), val: v }]);
+                        let (name, val) = match rng.below(9) {
+                            0 => ("CullMode".to_string(), Val::Str("Sideways".into())),
+                            1 => ("WindingOrder".to_string(), Val::Str("clockwise".into())),
+                            2 => ("BlendState".to_string(), sub("SrcBlend", Val::Str("Sideways".into()))),
+                            3 => (format!("BlendState{}", rng.below(8)), sub("BlendOpAlpha", Val::Str("Subtract".into()))),
+                            4 => (format!("BlendState{}", rng.below(8)), sub("WriteMask", Val::Num(256))),
+                            5 => ("BlendState".to_string(), sub("WriteMask", Val::Konst(300))),
+                            6 => ("BlendState".to_string(), sub("BlendEnabled", Val::Num(1))),
+                            7 => ("BlendState".to_string(), sub("WriteMask", if rng.chance(1, 2) { Val::NonConst } else { Val::Agg(Vec::new()) })),
+                            _ => ("DefaultBindGroup".to_string(), Val::Agg(vec![Prop { name: "A".into(), val: Val::Num(1) }])),
+                        };
+                        if let WItem::Pipe(pp) = &mut nodes[p].item {
+                            pp.props.retain(|x| x.name != name);
+                            let at = rng.below(pp.props.len() as u64 + 1) as usize;
+                            pp.props.insert(at, Prop { name, val });
+                        }
+                    }
+                }
+                31 => {
+                    // a property value whose type check instantiates a function template: `sizeof(wide_tf<uint>(1u))`
+                    if let Some(p) = pick_pipe(rng) {
+                        let n = nodes.len();
+                        if !nodes.iter().any(|x| matches!(&x.item, WItem::Func(f) if f.name == "wide_tf")) {
+                            nodes.push(Node {
+                                item: WItem::Func(WFunc { name: "wide_tf".into(), shape: 'z', flags: "T".into(), threads: None, uses: Vec::new(), calls: Vec::new(), statics: Vec::new() }),
+                                deps: Vec::new(),
+                            });
+                            for q in &pipe_nodes {
+                                nodes[*q].deps.push(n);
+                            }
+                        }
+                        let val = Val::SizeofInst("wide_tf".into());
+                        if let WItem::Pipe(pp) = &mut nodes[p].item {
+                            let graphics = !pp.props.iter().any(|x| x.name == "ComputeShader");
+                            let (name, val) = if graphics && rng.chance(1, 3) {
+                                ("BlendState".to_string(), Val::Agg(vec![Prop { name: "WriteMask".into(), val }]))
+                            } else {
+                                ("DefaultBindGroup".to_string(), val)
+                            };
+                            pp.props.retain(|x| x.name != name);
+                            pp.props.push(Prop { name, val });
                         }
                     }
                 }
